@@ -1,395 +1,19 @@
 ------------------------------- MODULE Asm -------------------------------
 (***************************************************************************)
-(* The composed bespokeasm pipeline as one specification.                   *)
-(*                                                                         *)
-(*   read phase   one step per source line: condition stack, mute counter, *)
-(*                symbol table, zone table, current zone, label scope      *)
-(*                (file, local region), include stack -> line objects      *)
-(*   pass 1       one step per compilable line object: zone cursors,       *)
-(*                addresses, sizes, label binding                          *)
-(*   sort         stable by address (predefined data blocks appended)      *)
-(*   pass 2       one step per line object: bytes, adjacent overlap check  *)
-(*   image        one step per address of the window                       *)
-(*                                                                         *)
-(* Every phase is a step FUNCTION over a state record (the implementation  *)
-(* is deterministic), so the same operators serve three uses:              *)
-(*   - the generative instances (MC_xx):  TLC appends abstract lines from an *)
-(*     alphabet, i.e. enumerates every program up to MaxLen lines;         *)
-(*   - the trace specifications (Trace_xx):  one logged event per step;      *)
-(*   - relational properties (Run(x) = Run(y)) as ordinary invariants.     *)
-(*                                                                         *)
-(* Abstract lines are records [k, n, a, b]: kind, a name, two integers.    *)
-(*   lab n            address label (n names its scope class, see Cls)     *)
-(*   labreg / labkw   a label that is a register name / assembler keyword  *)
-(*   const n a        constant n = a                                       *)
-(*   i1               one-byte instruction                                 *)
-(*   i2 n a / i3 n a  opcode + 8 / 16 bit operand: label or symbol n, or   *)
-(*                    literal a when n = ""                                *)
-(*   byte n a b       b data bytes: (n or a), a+1, a+2, ...                *)
-(*   fill a b         a copies of b;  zero a;  zuntil a                    *)
-(*   org a            absolute origin (GLOBAL); orgz n a: zone n's start+a *)
-(*   zone n           select zone;  align a (0: default page size)         *)
-(*   mute / unmute                                                         *)
-(*   ifdef n / ifndef n / if n a (#if n == a) / ifnz n (#if n)             *)
-(*   elif n a / else / endif / define n a                                  *)
-(*   mkzone n a b     #create_memzone n a b                                *)
-(*   incb / ince      the lines between them live in an included file      *)
+(* Generative form of the composed pipeline: TLC appends abstract lines    *)
+(* from an alphabet (every program up to MaxLen lines) and Finish          *)
+(* assembles the program with the step functions of AsmCore.tla; the       *)
+(* design properties of C02 .. C08, C17 are stated here over the result,   *)
+(* and Emit prints each terminal scenario with its expected observation.   *)
 (***************************************************************************)
-EXTENDS Integers, Sequences, FiniteSets, TLC, Json, SequencesExt, FiniteSetsExt, Functions
+EXTENDS AsmCore
 
 CONSTANTS
     Alphabet,       \* set of abstract lines a generative instance may append
-    MaxLen,         \* bound on program length (generative instances)
-    AddrBits,       \* address width
-    Origin,         \* default origin (GLOBAL cursor at start)
-    PageSize,       \* default page size of .align
-    PreZones,       \* sequence of [n, s, e]: predefined zones (may redefine GLOBAL)
-    PreData,        \* sequence of [n, a, v, sz]: predefined data blocks
-    InitDefs,       \* sequence of <<name, value>>: symbols from the ISA definition / command line
-    WinStart, WinEnd, Fill      \* image window; WinEnd = -1 means "no end given"
+    MaxLen          \* bound on program length (generative instances)
 
 VARIABLES prog, rd, phase, res
 vars == <<prog, rd, phase, res>>
-
-Undef == -99            \* symbol / label / zone "not defined"
-NoEnd == -1             \* cfg files cannot write -1: use  WinEnd <- NoEnd
-SymNames  == {"S1", "S2", "S3"}
-ZoneNames == {"GLOBAL", "z1", "z2", "z3"}
-
-\* scope class of a name: global, file or local ("k.." are constants)
-Cls(n) == CASE n \in {"g1", "g2", "g3", "kg1", "kg2", "pd1", "pc1"} -> "g"
-            [] n \in {"f1", "f2", "kf1"} -> "f"
-            [] n \in {"l1", "l2"} -> "l"
-            [] OTHER -> "g"
-
-Pow2(n) == 2 ^ n
-MaxI(a, b) == IF a >= b THEN a ELSE b
-MinI(a, b) == IF a <= b THEN a ELSE b
-Mod256(v) == v % 256
-
-L(k, n, a, b) == [k |-> k, n |-> n, a |-> a, b |-> b]
-
----------------------------------------------------------------------------
-(* Condition stack (C08).  An entry records, decided once when its         *)
-(* directive is reached: sel - this branch is selected; done - some branch *)
-(* of the chain has been selected; par - the enclosing context was active; *)
-(* els - the chain has had its #else.                                      *)
-
-Active(stk) == stk = <<>> \/ (Last(stk).par /\ Last(stk).sel)
-
-CondKinds == {"ifdef", "ifndef", "if", "ifnz", "elif", "else", "endif", "mute", "unmute"}
-OpenKinds == {"ifdef", "ifndef", "if", "ifnz"}
-
-Holds(l, defs) ==
-    CASE l.k = "ifdef"  -> defs[l.n] # Undef
-      [] l.k = "ifndef" -> defs[l.n] = Undef
-      [] l.k \in {"if", "elif"} -> defs[l.n] = l.a
-      [] l.k = "ifnz"   -> defs[l.n] # 0
-      [] OTHER -> FALSE
-
-\* is the condition of l evaluated if l is reached now?  (needed to keep the generators away from the
-\* under-specified "undefined symbol inside #if")
-Evaluated(l, stk) ==
-    CASE l.k \in OpenKinds -> Active(stk)
-      [] l.k = "elif" -> stk # <<>> /\ ~Last(stk).els /\ Last(stk).par /\ ~Last(stk).done
-      [] OTHER -> FALSE
-
-\* returns [stk, mute, err]
-CondStep(l, stk, mute, defs) ==
-    CASE l.k \in OpenKinds ->
-            LET par == Active(stk)
-                c   == par /\ Holds(l, defs)
-            IN  [stk |-> Append(stk, [sel |-> c, done |-> c, par |-> par, els |-> FALSE]), mute |-> mute, err |-> ""]
-      [] l.k = "elif" ->
-            IF stk = <<>> THEN [stk |-> stk, mute |-> mute, err |-> "dangling"]
-            ELSE LET t == Last(stk) IN
-                 IF t.els THEN [stk |-> stk, mute |-> mute, err |-> "dangling"]
-                 ELSE LET c == t.par /\ ~t.done /\ Holds(l, defs) IN
-                      [stk |-> Append(Front(stk), [sel |-> c, done |-> t.done \/ c, par |-> t.par, els |-> FALSE]),
-                       mute |-> mute, err |-> ""]
-      [] l.k = "else" ->
-            IF stk = <<>> THEN [stk |-> stk, mute |-> mute, err |-> "dangling"]
-            ELSE LET t == Last(stk) IN
-                 IF t.els THEN [stk |-> stk, mute |-> mute, err |-> "dangling"]
-                 ELSE [stk |-> Append(Front(stk), [sel |-> t.par /\ ~t.done, done |-> TRUE, par |-> t.par, els |-> TRUE]),
-                       mute |-> mute, err |-> ""]
-      [] l.k = "endif" ->
-            IF stk = <<>> THEN [stk |-> stk, mute |-> mute, err |-> "dangling"]
-            ELSE [stk |-> Front(stk), mute |-> mute, err |-> ""]
-      [] l.k = "mute"   -> [stk |-> stk, mute |-> IF Active(stk) THEN mute + 1 ELSE mute, err |-> ""]
-      [] l.k = "unmute" -> [stk |-> stk, mute |-> IF Active(stk) /\ mute > 0 THEN mute - 1 ELSE mute, err |-> ""]
-      [] OTHER -> [stk |-> stk, mute |-> mute, err |-> "internal"]
-
----------------------------------------------------------------------------
-(* Zones (C05)                                                             *)
-
-GlobalPre == SelectSeq(PreZones, LAMBDA z : z.n = "GLOBAL")
-GlobalS == IF GlobalPre = <<>> THEN 0 ELSE GlobalPre[1].s
-GlobalE == IF GlobalPre = <<>> THEN Pow2(AddrBits) - 1 ELSE GlobalPre[1].e
-
-NoZone == [d |-> FALSE, s |-> 0, e |-> 0]
-InitZtab ==
-    LET base == [z \in ZoneNames |-> IF z = "GLOBAL" THEN [d |-> TRUE, s |-> GlobalS, e |-> GlobalE] ELSE NoZone]
-        Put(t, z) == [t EXCEPT ![z.n] = [d |-> TRUE, s |-> z.s, e |-> z.e]]
-    IN  FoldLeft(Put, base, PreZones)
-
-\* a zone definition that can never be accepted, predefined or not
-ZoneIllFormed(s, e) == s > e \/ e > Pow2(AddrBits) - 1
-PreZonesOk == \A i \in 1..Len(PreZones) : ~ZoneIllFormed(PreZones[i].s, PreZones[i].e)
-
-AlignUp(a, p) == IF a % p = 0 THEN a ELSE a + (p - (a % p))
-
----------------------------------------------------------------------------
-(* Read phase.  rd is the reader state record.                             *)
-
-InitDefsFn == LET Put(f, d) == [f EXCEPT ![d[1]] = d[2]]
-              IN  FoldLeft(Put, [s \in SymNames |-> Undef], InitDefs)
-
-InitReader ==
-    [ defs |-> InitDefsFn, cstk |-> <<>>, mute |-> 0,
-      ztab |-> InitZtab, zone |-> "GLOBAL",
-      file |-> 1, nfile |-> 1, region |-> 0, nreg |-> 0,
-      fstk |-> <<>>,            \* include stack: [file, region, zone, cstk, mute]
-      lines |-> <<>>,           \* line objects
-      consts |-> <<>>,          \* constants bound while reading: [key, v]
-      pc |-> 0,                 \* number of source lines consumed
-      status |-> "run", why |-> "" ]
-
-Fail(r, w) == [r EXCEPT !.status = "err", !.why = w]
-
-ScopeKey(n, file, region) ==
-    CASE Cls(n) = "g" -> <<"g", n, 0, 0>>
-      [] Cls(n) = "f" -> <<"f", n, file, 0>>
-      [] OTHER        -> <<"l", n, file, region>>
-
-HasKey(tab, key) == \E i \in 1..Len(tab) : tab[i].key = key
-
-\* the line object created for source line i; comp: it is compiled; muted: its bytes are not emitted
-LineObj(i, l, comp, muted, zone, file, region) ==
-    [i |-> i, k |-> l.k, n |-> l.n, a |-> l.a, b |-> l.b, comp |-> comp, muted |-> muted,
-     zone |-> zone, file |-> file, region |-> region]
-
-\* operand substitution of a defined preprocessor symbol (whole word; C09 is decided in Symbols.tla)
-Subst(l, defs) ==
-    IF l.k \in {"i2", "i3", "byte"} /\ l.n \in SymNames /\ defs[l.n] # Undef
-    THEN [l EXCEPT !.n = "", !.a = defs[l.n]] ELSE l
-
-AddLine(r, lo) == [r EXCEPT !.lines = Append(@, lo)]
-
-ReadStep0(r, l0) ==
-    LET i == r.pc + 1 IN        \* position of the line in the program
-    IF l0.k \in CondKinds THEN
-        LET c == CondStep(l0, r.cstk, r.mute, r.defs) IN
-        IF c.err # "" THEN Fail(r, c.err)
-        ELSE AddLine([r EXCEPT !.cstk = c.stk, !.mute = c.mute],
-                     LineObj(i, l0, TRUE, FALSE, r.zone, r.file, r.region))
-    ELSE IF l0.k = "ince" THEN
-        \* end of an included file: the includer's file scope, local region, zone and condition stack
-        \* continue unchanged; the mute counter is NOT per file (muting carries across, as if pasted)
-        IF r.fstk = <<>> THEN Fail(r, "internal")
-        ELSE LET f == Last(r.fstk) IN
-             [r EXCEPT !.fstk = Front(@), !.file = f.file, !.region = f.region, !.zone = f.zone,
-                       !.cstk = f.cstk]
-    ELSE IF ~Active(r.cstk) THEN
-        \* a line in a branch that is not selected contributes nothing
-        IF l0.k = "incb" THEN
-             \* an excluded #include is not read at all: its lines are skipped up to the matching ince
-             \* (generators only produce this with an empty included file)
-             [r EXCEPT !.fstk = Append(@, [file |-> r.file, region |-> r.region, zone |-> r.zone,
-                                            cstk |-> r.cstk, mute |-> r.mute])]
-        ELSE AddLine(r, LineObj(i, l0, FALSE, r.mute > 0, r.zone, r.file, r.region))
-    ELSE
-      LET l == Subst(l0, r.defs)
-          muted == r.mute > 0
-      IN
-      CASE l.k = "define" ->
-              IF r.defs[l.n] # Undef THEN Fail(r, "redefine")
-              ELSE AddLine([r EXCEPT !.defs[l.n] = l.a], LineObj(i, l, TRUE, muted, r.zone, r.file, r.region))
-        [] l.k = "mkzone" ->
-              IF r.ztab[l.n].d THEN Fail(r, "zonedup")
-              ELSE IF l.a < r.ztab["GLOBAL"].s \/ l.b > r.ztab["GLOBAL"].e \/ ZoneIllFormed(l.a, l.b)
-                   THEN Fail(r, "zonebad")
-              ELSE AddLine([r EXCEPT !.ztab[l.n] = [d |-> TRUE, s |-> l.a, e |-> l.b]],
-                           LineObj(i, l, TRUE, muted, r.zone, r.file, r.region))
-        [] l.k = "incb" ->
-              \* a fresh file scope under the global scope; the included file starts in GLOBAL with its
-              \* own (empty) condition stack; muting continues
-              [r EXCEPT !.fstk = Append(@, [file |-> r.file, region |-> r.region, zone |-> r.zone,
-                                             cstk |-> r.cstk, mute |-> r.mute]),
-                        !.file = r.nfile + 1, !.nfile = r.nfile + 1, !.region = 0, !.zone = "GLOBAL",
-                        !.cstk = <<>>]
-        [] l.k \in {"labreg", "labkw"} -> Fail(r, "badlabel")
-        [] l.k = "lab" ->
-              IF Cls(l.n) = "l"
-              THEN AddLine(r, LineObj(i, l, TRUE, muted, r.zone, r.file, r.region))
-              ELSE \* a non-local label opens a new local region
-                   AddLine([r EXCEPT !.region = r.nreg + 1, !.nreg = r.nreg + 1],
-                           LineObj(i, l, TRUE, muted, r.zone, r.file, r.nreg + 1))
-        [] l.k = "const" ->
-              LET key == ScopeKey(l.n, r.file, r.region) IN
-              IF HasKey(r.consts, key) THEN Fail(r, "duplicate")
-              ELSE AddLine([r EXCEPT !.consts = Append(@, [key |-> key, v |-> l.a])],
-                           LineObj(i, l, TRUE, muted, r.zone, r.file, r.region))
-        [] l.k = "org" ->
-              AddLine([r EXCEPT !.zone = "GLOBAL", !.region = 0],
-                      LineObj(i, l, TRUE, muted, "GLOBAL", r.file, 0))
-        [] l.k \in {"orgz", "zone"} ->
-              IF ~r.ztab[l.n].d THEN Fail(r, "nozone")
-              ELSE AddLine([r EXCEPT !.zone = l.n, !.region = 0], LineObj(i, l, TRUE, muted, l.n, r.file, 0))
-        [] OTHER -> AddLine(r, LineObj(i, l, TRUE, muted, r.zone, r.file, r.region))
-
-ReadStep(r, l) == [ReadStep0(r, l) EXCEPT !.pc = r.pc + 1]
-
-RECURSIVE ReadAll(_, _, _)
-ReadAll(r, p, j) == IF j > Len(p) \/ r.status # "run" THEN r ELSE ReadAll(ReadStep(r, p[j]), p, j + 1)
-
----------------------------------------------------------------------------
-(* Pass 1 (C02, C05): addresses, sizes, zone cursors, label binding.       *)
-
-ByteKinds == {"i1", "i2", "i3", "byte", "fill", "zero", "zuntil", "pdata"}
-
-SizeOf(lo, addr) ==
-    CASE lo.k = "i1" -> 1 [] lo.k = "i2" -> 2 [] lo.k = "i3" -> 3
-      [] lo.k = "byte" -> lo.b
-      [] lo.k \in {"fill", "zero"} -> lo.a
-      [] lo.k = "zuntil" -> IF lo.a >= addr THEN lo.a - addr + 1 ELSE 0
-      [] OTHER -> 0
-
-InitCur(ztab) == [z \in ZoneNames |-> IF z = "GLOBAL" THEN Origin ELSE ztab[z].s]
-
-\* p: [cur, objs, labs, status, why]; ztab is the zone table at the END of reading (zones exist from
-\* their creation on; pass 1 runs after all reading)
-P1Step(p, lo, ztab) ==
-    LET z    == lo.zone
-        zr   == ztab[z]
-        gs   == ztab["GLOBAL"].s
-        ge   == ztab["GLOBAL"].e
-        page == IF lo.a = 0 THEN PageSize ELSE lo.a
-        addr == CASE lo.k = "org"   -> lo.a
-                  [] lo.k = "orgz"  -> zr.s + lo.a
-                  [] lo.k = "align" -> AlignUp(p.cur[z], page)
-                  [] OTHER -> p.cur[z]
-        size == SizeOf(lo, addr)
-        nxt  == addr + size
-        obj  == [i |-> lo.i, k |-> lo.k, n |-> lo.n, a |-> lo.a, b |-> lo.b, muted |-> lo.muted, zone |-> z,
-                 file |-> lo.file, region |-> lo.region, addr |-> addr, size |-> size]
-        key  == ScopeKey(lo.n, lo.file, lo.region)
-    IN
-    IF lo.k \in {"org", "orgz"} /\ (addr < gs \/ addr > ge) THEN [p EXCEPT !.status = "err", !.why = "orgrange"]
-    ELSE IF size < 0 THEN [p EXCEPT !.status = "err", !.why = "negsize"]
-    ELSE IF nxt < zr.s \/ nxt > zr.e + 1 THEN [p EXCEPT !.status = "err", !.why = "zonebounds"]
-    ELSE IF size > 0 /\ (addr < gs \/ nxt - 1 > ge) THEN [p EXCEPT !.status = "err", !.why = "globalbounds"]
-    ELSE IF lo.k = "lab" /\ Cls(lo.n) = "l" /\ lo.region = 0 THEN [p EXCEPT !.status = "err", !.why = "orphanlocal"]
-    ELSE IF lo.k = "lab" /\ HasKey(p.labs, key) THEN [p EXCEPT !.status = "err", !.why = "duplicate"]
-    ELSE [p EXCEPT !.cur[z] = nxt, !.objs = Append(@, obj),
-                   !.labs = IF lo.k = "lab" THEN Append(@, [key |-> key, v |-> addr]) ELSE @]
-
-RECURSIVE P1All(_, _, _, _)
-P1All(p, ls, j, ztab) ==
-    IF j > Len(ls) \/ p.status # "ok" THEN p
-    ELSE P1All(IF ls[j].comp THEN P1Step(p, ls[j], ztab) ELSE p, ls, j + 1, ztab)
-
-PreDataLabs == [j \in 1..Len(PreData) |-> [key |-> <<"g", PreData[j].n, 0, 0>>, v |-> PreData[j].a]]
-PreDataObjs == [j \in 1..Len(PreData) |->
-                   [i |-> 0, k |-> "pdata", n |-> PreData[j].n, a |-> PreData[j].v, b |-> 0, muted |-> FALSE,
-                    zone |-> "GLOBAL", file |-> 0, region |-> 0, addr |-> PreData[j].a, size |-> PreData[j].sz]]
-
----------------------------------------------------------------------------
-(* Sort: stable insertion sort by address.                                 *)
-
-RECURSIVE InsertSorted(_, _)
-InsertSorted(s, x) ==
-    IF s = <<>> THEN <<x>>
-    ELSE IF Last(s).addr <= x.addr THEN Append(s, x)
-    ELSE Append(InsertSorted(Front(s), x), Last(s))
-
-SortByAddr(objs) == FoldLeft(InsertSorted, <<>>, objs)
-
----------------------------------------------------------------------------
-(* Pass 2 (C02, C04, C06): bytes and the adjacent overlap check.           *)
-
-Lookup(tab, n, file, region) ==
-    LET key == ScopeKey(n, file, region)
-        hit == SelectSeq(tab, LAMBDA e : e.key = key)
-    IN  IF hit = <<>> \/ (Cls(n) = "l" /\ region = 0) THEN Undef ELSE hit[1].v
-
-\* value of an operand: a label / constant reference or a literal
-OperandVal(o, tab) == IF o.n = "" THEN o.a ELSE Lookup(tab, o.n, o.file, o.region)
-
-Fits(v, w) == -(Pow2(w - 1)) <= v /\ v <= Pow2(w) - 1
-
-\* [bytes, err]
-BytesOf(o, tab) ==
-    LET v == OperandVal(o, tab) IN
-    CASE o.k = "i1" -> [bytes |-> <<234>>, err |-> ""]
-      [] o.k = "i2" -> IF v = Undef THEN [bytes |-> <<>>, err |-> "unresolved"]
-                       ELSE IF ~Fits(v, 8) THEN [bytes |-> <<>>, err |-> "fit"]
-                       ELSE [bytes |-> <<168, Mod256(v)>>, err |-> ""]
-      [] o.k = "i3" -> IF v = Undef THEN [bytes |-> <<>>, err |-> "unresolved"]
-                       ELSE IF ~Fits(v, 16) THEN [bytes |-> <<>>, err |-> "fit"]
-                       ELSE [bytes |-> <<182, Mod256(v), Mod256((v % 65536) \div 256)>>, err |-> ""]
-      [] o.k = "byte" -> IF v = Undef THEN [bytes |-> <<>>, err |-> "unresolved"]
-                         ELSE [bytes |-> [j \in 1..o.b |-> Mod256(IF j = 1 THEN v ELSE o.a + j - 1)], err |-> ""]
-      [] o.k = "fill" -> [bytes |-> [j \in 1..o.size |-> Mod256(o.b)], err |-> ""]
-      [] o.k \in {"zero", "zuntil"} -> [bytes |-> [j \in 1..o.size |-> 0], err |-> ""]
-      [] o.k = "pdata" -> [bytes |-> [j \in 1..o.size |-> Mod256(o.a)], err |-> ""]
-      [] OTHER -> [bytes |-> <<>>, err |-> ""]
-
-\* q: [outs, last, status, why]; last = index into outs of the previous byte line with size > 0 (0: none)
-P2Step(q, o, tab) ==
-    IF o.k \notin ByteKinds THEN [q EXCEPT !.outs = Append(@, [o EXCEPT !.zone = o.zone] @@ [bytes |-> <<>>])]
-    ELSE LET g == BytesOf(o, tab) IN
-         IF g.err # "" THEN [q EXCEPT !.status = "err", !.why = g.err]
-         ELSE IF Len(g.bytes) # o.size THEN [q EXCEPT !.status = "err", !.why = "sizemismatch"]
-         ELSE IF o.size > 0 /\ q.last # 0 /\ q.outs[q.last].addr + q.outs[q.last].size > o.addr
-              THEN [q EXCEPT !.status = "err", !.why = "overlap"]
-         ELSE [q EXCEPT !.outs = Append(@, o @@ [bytes |-> g.bytes]),
-                        !.last = IF o.size > 0 THEN Len(q.outs) + 1 ELSE @]
-
-RECURSIVE P2All(_, _, _, _)
-P2All(q, objs, j, tab) ==
-    IF j > Len(objs) \/ q.status # "ok" THEN q ELSE P2All(P2Step(q, objs[j], tab), objs, j + 1, tab)
-
----------------------------------------------------------------------------
-(* Memory map and image (C03).                                             *)
-
-Emitting(o) == o.k \in ByteKinds /\ ~o.muted /\ o.size > 0
-
-MemOf(outs) ==
-    LET Put(m, o) == IF Emitting(o) THEN [a \in o.addr..(o.addr + o.size - 1) |-> o.bytes[a - o.addr + 1]] @@ m ELSE m
-    IN  FoldLeft(Put, <<>>, outs)
-
-WinLast(mem) == IF WinEnd # -1 THEN WinEnd
-                ELSE IF DOMAIN mem = {} THEN WinStart - 1 ELSE Max(DOMAIN mem)
-
-\* the image loop as a machine: one address per step
-RECURSIVE ImgLoop(_, _, _, _)
-ImgLoop(addr, last, mem, acc) ==
-    IF addr > last THEN acc
-    ELSE ImgLoop(addr + 1, last, mem, Append(acc, IF addr \in DOMAIN mem THEN mem[addr] ELSE Fill))
-
-ImageOf(mem) == ImgLoop(WinStart, WinLast(mem), mem, <<>>)
-
----------------------------------------------------------------------------
-(* The whole run.                                                          *)
-
-ErrRes(w) == [status |-> "err", why |-> w, objs |-> <<>>, labs |-> <<>>, image |-> <<>>, mem |-> <<>>, lines |-> <<>>]
-
-Assemble(r) ==
-    IF r.status # "run" THEN ErrRes(r.why)
-    ELSE
-    LET p0 == [cur |-> InitCur(r.ztab), objs |-> <<>>, labs |-> r.consts \o PreDataLabs, status |-> "ok", why |-> ""]
-        p  == P1All(p0, r.lines, 1, r.ztab)
-    IN  IF p.status # "ok" THEN [ErrRes(p.why) EXCEPT !.lines = r.lines]
-        ELSE
-        LET sorted == SortByAddr(p.objs \o PreDataObjs)
-            q == P2All([outs |-> <<>>, last |-> 0, status |-> "ok", why |-> ""], sorted, 1, p.labs)
-        IN  IF q.status # "ok" THEN [ErrRes(q.why) EXCEPT !.lines = r.lines, !.objs = p.objs, !.labs = p.labs]
-            ELSE LET mem == MemOf(q.outs) IN
-                 [status |-> "ok", why |-> "", objs |-> q.outs, labs |-> p.labs, image |-> ImageOf(mem),
-                  mem |-> mem, lines |-> r.lines]
-
-Run(p) == Assemble(ReadAll(InitReader, p, 1))
 
 ---------------------------------------------------------------------------
 (* Generative behaviour: TLC appends lines; Finish assembles.              *)
@@ -440,8 +64,11 @@ Spec == Init /\ [][Next]_vars
 Done == phase = "done"
 Ok   == Done /\ res.status = "ok"
 
+CompObjsRaw == [j \in 1..Len(res.objs) |-> [i |-> res.objs[Len(res.objs) + 1 - j].i, addr |-> res.objs[Len(res.objs) + 1 - j].addr]]
 \* the step-wise reader equals the batch reader (sanity of the generative form)
 ReaderIsFold == Done => res = Run(prog)
+
+SortIsStableInsertion == Ok => SortByAddrLib(CompObjsRaw) = SortByAddr(CompObjsRaw)
 
 (* C02 *)
 CompObjs == SelectSeq(res.objs, LAMBDA o : o.k # "pdata")
